@@ -365,6 +365,11 @@ impl LiveActor {
         if !self.state.start_connect(&namespace, peer, reason) {
             return;
         }
+        #[cfg(iroh_docs_verif)]
+        if crate::verif::record_dial(namespace, peer, reason) {
+            // the harness plays the network: the dial is recorded instead of being performed
+            return;
+        }
         let endpoint = self.endpoint.clone();
         let sync = self.sync.clone();
         let metrics = self.metrics.clone();
@@ -830,6 +835,73 @@ impl LiveActor {
     ) -> AcceptOutcome {
         self.state
             .accept_request(&self.endpoint.id(), &namespace, peer)
+    }
+}
+
+/// Verification hook: the live actor's coordination handlers, driven directly (the actor loop is
+/// not running; the harness plays the network and the task completions).
+#[cfg(iroh_docs_verif)]
+pub mod verif {
+    use super::*;
+
+    /// A live actor whose handlers are called by the harness.
+    #[derive(derive_more::Debug)]
+    #[debug("Coordinator")]
+    pub struct Coordinator {
+        actor: LiveActor,
+        _tx: mpsc::Sender<ToLiveActor>,
+    }
+
+    impl Coordinator {
+        /// `LiveActor::new`
+        pub fn new(
+            sync: SyncHandle,
+            endpoint: Endpoint,
+            gossip: Gossip,
+            bao_store: Store,
+            downloader: Downloader,
+        ) -> Result<Self> {
+            let (tx, rx) = mpsc::channel(64);
+            let metrics = sync.metrics().clone();
+            let actor = LiveActor::new(sync, endpoint, gossip, bao_store, downloader, rx, tx.clone(), metrics)?;
+            Ok(Self { actor, _tx: tx })
+        }
+
+        /// `start_sync` without peers: open the replica and mark the document as syncing.
+        pub async fn start_sync(&mut self, namespace: NamespaceId) -> Result<()> {
+            self.actor.start_sync(namespace, vec![]).await
+        }
+
+        /// `sync_with_peer`
+        pub fn sync_with_peer(&mut self, namespace: NamespaceId, peer: PublicKey, reason: SyncReason) {
+            self.actor.sync_with_peer(namespace, peer, reason)
+        }
+
+        /// `accept_sync_request`
+        pub fn accept_sync_request(&mut self, namespace: NamespaceId, peer: PublicKey) -> AcceptOutcome {
+            self.actor.accept_sync_request(namespace, peer)
+        }
+
+        /// `on_sync_via_connect_finished`
+        pub async fn on_sync_via_connect_finished(
+            &mut self,
+            namespace: NamespaceId,
+            peer: PublicKey,
+            reason: SyncReason,
+            result: Result<SyncFinished, ConnectError>,
+        ) {
+            self.actor.on_sync_via_connect_finished(namespace, peer, reason, result).await
+        }
+
+        /// `on_sync_via_accept_finished`
+        pub async fn on_sync_via_accept_finished(&mut self, res: Result<SyncFinished, AcceptError>) {
+            self.actor.on_sync_via_accept_finished(res).await
+        }
+
+        /// `(state, resync_requested)` of the slot for `peer`
+        pub fn snapshot(&mut self, namespace: NamespaceId, peer: PublicKey) -> Option<(u8, bool)> {
+            self.actor.state.verif_snapshot(&namespace, peer)
+        }
     }
 }
 
